@@ -60,6 +60,26 @@ CONTRACTS = {
             'implies((u, v) in old(self.edgeset), self.adjlist == old(self.adjlist) and self.edgeset == old(self.edgeset))',
         ] + INV,
     },
+    (G, 'Graph.add_edges_from'): {
+        # a list of pairs, inserted one after the other: the invariant is kept, nothing is lost, every listed edge is in
+        'property': ['C16'],
+        'source': (G, 'BaseGraph.add_edges_from'),
+        'params': {'self': 'obj:Graph', 'edges': 'pairlist'},
+        # refused at the first pair the graph type does not allow
+        'raises': {'ValueError': 'not forall(lambda j: implies(0 <= j and j < len(edges), 1 <= edges[j][0] and edges[j][0] <= self.n and '
+                                 '1 <= edges[j][1] and edges[j][1] <= self.n and edges[j][0] != edges[j][1]))'},
+        'ensures_on_raise': ['self.n == old(self.n)'] + INV,
+        'loops': {0: {'ghost_at_entry': {'E0': 'self.edgeset'},
+                      'inv': ['self.n == old(self.n)',
+                              'forall(lambda x, y: implies((x, y) in E0, (x, y) in self.edgeset))',
+                              'forall(lambda j: implies(0 <= j and j < _it, (edges[j][0], edges[j][1]) in self.edgeset), lambda j: edges[j][0])',
+                              'forall(lambda j: implies(0 <= j and j < _it, 1 <= edges[j][0] and edges[j][0] <= self.n and '
+                              '1 <= edges[j][1] and edges[j][1] <= self.n and edges[j][0] != edges[j][1]))'] + INV,
+                      'modifies_objects': ['self'], 'modifies_fields': {'self': ['adjlist', 'edgeset', 'm', 'idx']}}},
+        'ensures': ['self.n == old(self.n)',
+                    'forall(lambda x, y: implies((x, y) in old(self.edgeset), (x, y) in self.edgeset))',
+                    'forall(lambda j: implies(0 <= j and j < len(edges), (edges[j][0], edges[j][1]) in self.edgeset), lambda j: edges[j][0])'] + INV,
+    },
     (G, 'Graph.remove_edge'): {
         'property': ['C16'],
         'params': {'u': 'int', 'v': 'int'},
